@@ -31,14 +31,14 @@ CLAIMED = {
     "C19": dict(
         cat="exploration",
         ref="DESIGN.md 4/C19",
-        technique="deterministic simulation: seeded histories of the two mutually recursive setters from either side over plain, falsy and value-equal universe classes, an ill-typed assignment as a history-ending failing call, bijection invariant + own-target + rule read-back after every step, watchdog for runaway recursion",
+        technique="deterministic simulation: seeded histories of the two mutually recursive setters from either side over plain, falsy and value-equal universe classes, an ill-typed assignment as a history-ending failing call, bijection invariant + own-target + rule read-back after every step, watchdog for runaway recursion; rule switches given values that are not bools, read back by type and value",
         text="Seeded histories of laws/applies_to assignments and universe constructions; u.laws is L iff L.applies_to is u over every known pair after every step.",
         note="Law sets built without applies_to=; what a displaced partner receives is not dictated beyond the invariant.",
     ),
     "C05": dict(
         cat="exploration",
         ref="DESIGN.md 4/C05",
-        technique="deterministic simulation: twin worlds (cached under a seeded flag schedule vs. uncached) driven by one history of mutations and reads, with flag flips, process restarts (nrpickler dump -> fresh interpreter via exec or zygote fork), seeded interleaving of suspended generator traversals, mutators cut short by exceptions out of user overrides; every read compared",
+        technique="deterministic simulation: twin worlds (cached under a seeded flag schedule vs. uncached) driven by one history of mutations and reads, with flag flips, process restarts (nrpickler dump -> fresh interpreter via exec or zygote fork), seeded interleaving of suspended generator traversals, mutators cut short by exceptions out of user overrides; every read compared; links of a vertex changed while a lazy traversal is suspended inside the expansion of that very vertex",
         text="Seeded search over interleavings of mutations (every public mutator, entered through either end, the edge, unlink, builders), reads (neighbors in all argument combinations, six traversal forms, three searches), cache-flag flips, one restart per run and up to four live generator traversals; the uncached twin is the property's own oracle.",
         note="Reference = the same library code with NEIGHBOR_CACHING False. Zygote forks stand in for fresh interpreters for volume; a fixed share are real exec restarts and replays always exec.",
     ),
@@ -52,7 +52,7 @@ CLAIMED = {
     "C11": dict(
         cat="exploration",
         ref="DESIGN.md 4/C11 (borderline, see there)",
-        technique="deterministic simulation: adjacency builders issued as mutators inside seeded histories on vertices with prior links/universes; reference model after every step; ill-shaped input as failing calls that must raise ValueError atomically; read-back through neighbors()/find_links forwards and backwards, with caching off and on; the caching flag flipped at seeded points of a share of the histories",
+        technique="deterministic simulation: adjacency builders issued as mutators inside seeded histories on vertices with prior links/universes; reference model after every step; ill-shaped input as failing calls that must raise ValueError atomically; read-back through neighbors()/find_links forwards and backwards, with caching off and on; the caching flag flipped at seeded points of a share of the histories; matrices without rows",
         text="Refinement against the reference model of the builders' effect and frame over histories, atomic rejection of bad input, read-back when the named vertices were fresh.",
         note="Claimed for its frame and atomic-rejection clauses; the input->graph core is covered by the same model comparison.",
     ),
@@ -80,14 +80,14 @@ CLAIMED = {
     "C18": dict(
         cat="exploration",
         ref="DESIGN.md 4/C18",
-        technique="deterministic simulation: seeded histories of constructions and targeted/global clears over a class, two subclass levels, falsy-instance classes, a derived metaclass, classes defined in mid-history and an unrelated class sharing one process-global table; fault injection (__init__ raising, warnings as errors), re-entrant clears/constructions from inside __init__, runs that hold no references; cls->instance model, all live classes re-checked after every step; classes with an ordinary restrictive __init__ signature (non-fitting calls while an instance is on file and while none is), user code inside a constructor that then fails",
+        technique="deterministic simulation: seeded histories of constructions and targeted/global clears over a class, two subclass levels, falsy-instance classes, a derived metaclass, classes defined in mid-history and an unrelated class sharing one process-global table; fault injection (__init__ raising, warnings as errors), re-entrant clears/constructions from inside __init__, runs that hold no references; cls->instance model, all live classes re-checked after every step; classes with an ordinary restrictive __init__ signature (non-fitting calls while an instance is on file and while none is), user code inside a constructor that then fails; a slotted singleton class",
         text="Seeded interleavings of constructions (arbitrary arguments) and clears; identity, __init__ count and first-call arguments checked against the model after every step.",
         note="The global table is emptied through the public clear at run start; classes are fresh per run.",
     ),
     "C20": dict(
         cat="exploration",
         ref="DESIGN.md 4/C20",
-        technique="deterministic simulation: the random module as a nondeterminism seam - reseeded, continued and adversarially biased generator states; process-wide settings flipped for single calls (warnings as errors, debug logging), re-entrant and falsy-instance edge classes; structural oracle, same-state reproducibility and a non-termination watchdog on every call; neighbor caching switched on for the duration of a share of the calls; an edge type whose constructor reads the i of both ends",
+        technique="deterministic simulation: the random module as a nondeterminism seam - reseeded, continued and adversarially biased generator states; process-wide settings flipped for single calls (warnings as errors, debug logging), re-entrant and falsy-instance edge classes; structural oracle, same-state reproducibility and a non-termination watchdog on every call; neighbor caching switched on for the duration of a share of the calls; an edge type whose constructor reads the i of both ends; documented parameters passed positionally; connectivity as Fraction / Decimal",
         text="Seeded search over (count, edge type, connectivity, ensurelink) x generator states, including draws forced to the ends of their range; each call repeated from the same state must rebuild the same graph.",
         note="Biased draws patch random.randint/random.sample during the call only; each returned value is one the real generator can produce.",
     ),
